@@ -25,6 +25,12 @@ import (
 	"github.com/basekick-labs/arc/pkg/models"
 )
 
+// facts regenerated from the current source (factgen): whether the key/value separator is located
+// escape-aware, and whether quoted string values are un-escaped with the string-only set (\" \\).
+// They switch the corresponding hazard classes off: the inputs then belong to the clean class and
+// every monitor applies to them.
+var kvAware, strRawOK bool
+
 const nowNs = int64(1_900_000_000_123_456_789)
 const nowUs = nowNs / 1000
 
@@ -355,7 +361,10 @@ func (p *point) hazards(rawHazard bool) hazards {
 		}
 	}
 	h.measLead = p.meas[0] == '#' || startsWithSpaceRune(p.meas)
-	h.rawBs = rawHazard
+	h.rawBs = rawHazard && !strRawOK
+	if kvAware {
+		h.eqKey = false
+	}
 	return h
 }
 
@@ -624,7 +633,7 @@ func (g *gen) schema(mode int) *schema {
 			n := g.name(g.nameClass(mode), 1, 8)
 			if mode == 0 {
 				n = stripByte(stripByte(n, '"'), '\\')
-				if !allowEq {
+				if !allowEq && !kvAware {
 					n = stripByte(n, '=')
 				}
 			}
@@ -690,7 +699,7 @@ func (g *gen) point(s *schema, mode int, mixed bool) *point {
 	if g.r.Chance(20) {
 		p.trail = vh.Pick(g.r, []string{" ", "\r", " \r", "\t", "  "})
 	}
-	p.rawBs = mode == 1 && g.r.Chance(40)
+	p.rawBs = (mode == 1 || strRawOK) && g.r.Chance(40)
 	return p
 }
 
@@ -1081,6 +1090,9 @@ func readCorpusDir(dir string) ([][]byte, error) {
 	}
 	var out [][]byte
 	for _, e := range ents {
+		if !strings.HasSuffix(e.Name(), ".lp") { // the directory also holds proposed fix diffs
+			continue
+		}
 		if b, err := os.ReadFile(filepath.Join(dir, e.Name())); err == nil {
 			out = append(out, bytes.ReplaceAll(bytes.TrimRight(b, "\n"), []byte("\n"), []byte(" ")))
 		}
@@ -1090,6 +1102,19 @@ func readCorpusDir(dir string) ([][]byte, error) {
 
 func main() {
 	c := vh.Start()
+	if v, ok := c.Facts["kv_cut_escape_aware"].(bool); ok {
+		kvAware = v
+	}
+	if set, ok := c.Facts["string_unescape_set"].([]any); ok {
+		strRawOK = true
+		for _, x := range set {
+			if n, _ := x.(float64); n == ',' || n == ' ' || n == '=' {
+				strRawOK = false
+			}
+		}
+	}
+	c.Extra["kv_cut_escape_aware"] = kvAware
+	c.Extra["string_value_raw_backslash_ok"] = strRawOK
 	verifclock.Set(nowNs)
 	// vh.NewRand(s) and vh.NewRand(s+1) are the same splitmix stream shifted by one draw (state =
 	// seed*γ+c, step γ), so consecutive VERIF_SEEDs would re-generate nearly the same cases; hash the
